@@ -31,7 +31,15 @@ def run(case):
         k = next(iter(action))
         a = action[k]
         if k == "callFn":
-            return fns[a["f"]]()
+            r = fns[a["f"]]()
+            if hasattr(r, "send"):          # an `async def` function: drive the coroutine (its awaits never suspend)
+                try:
+                    r.send(None)
+                except StopIteration as e:
+                    return e.value
+                r.close()
+                raise common.Infra("coroutine suspended unexpectedly")
+            return r
         if k == "callMethod":
             r = getattr(inst[a["inst"]], "m%d" % a["m"] if prog["classes"][prog["instCls"][a["inst"]]]["meths"][a["m"]]["guarded"]
                         else "_m%d" % a["m"])()
@@ -63,10 +71,16 @@ def run(case):
 
     # functions
     for f, d in enumerate(prog["fns"]):
-        def body(f=f, d=d):
-            log.append(["body", f])
-            run_script(d["body"])
-            return f
+        if case.get("asyncFns", {}).get(str(f)):
+            async def body(f=f, d=d):
+                log.append(["body", f])
+                run_script(d["body"])
+                return f
+        else:
+            def body(f=f, d=d):
+                log.append(["body", f])
+                run_script(d["body"])
+                return f
 
         body.__name__ = "F%d" % (f % 2)     # distinct functions may share a name: identity, not the name, keys the re-entrancy state
         g = body
